@@ -136,6 +136,7 @@ def body(c):
                    "schedule": r["schedule"], "seed": r["seed"]}
             c.violation(key, "C11: scenario %s: %s" % (r["scenario"], pb), {"actors": r["actors"], "trace": r["trace"][-60:]})
     c.extra["schedules_per_scenario"] = dict(per)
+    c.traces_validated = c.evaluations
     c.rule = ("each case = one scenario (2-3 real processes, or threads of one process, sharing a cache directory) x one schedule at "
               "file-system-call granularity enforced by the LD_PRELOAD interposer (turn-based): all schedules with <= 2 pre-emptions "
               "between the first two participants (strided in the quick tier), schedules projected from TLC -simulate behaviours of "
